@@ -12,7 +12,7 @@ THEOREMS = ["Fteik.C14_interp2d_weights", "Fteik.C14_interp3d_weights", "Fteik.C
             "Fteik.C14_interp2d_between", "Fteik.C14_interp2d_bilinear_exact", "Fteik.C14_interp2d_fill",
             "Fteik.C14_interp3d_fill", "Fteik.inside_false_of_incomparable", "Fteik.axisCell_facts",
             "Fteik.axisCell_at_node", "Fteik.ss_spec", "Fteik.inside_node", "Fteik.C14_interp3d_at_node",
-            "Fteik.C14_interp3d_between"]
+            "Fteik.C14_interp3d_between", "Fteik.C14_interp3d_trilinear_exact"]
 
 AXCLS = ["first", "node", "last", "cell", "below", "above", "nan"]
 
@@ -98,7 +98,7 @@ def run(tier):
     ck.rule = ("grids (shape, spacing, origin, value field kind) x query points drawn per axis from the classes "
                f"{AXCLS}; distinct = distinct (ndim, per-axis class tuple, field kind, fill kind) signatures")
     r = G.rng_for(C.seed(), "C14")
-    ck.lean(["FteikVerif.Props.C14", "FteikVerif.Props.C14b"], THEOREMS)
+    ck.lean(["FteikVerif.Props.C14", "FteikVerif.Props.C14b", "FteikVerif.Props.C14c"], THEOREMS)
     ng = 6 if tier == "quick" else 40
     npts = 40 if tier == "quick" else 120
     # ---- Tie A: kernel-level correspondence, every boundary class
@@ -211,8 +211,9 @@ def run(tier):
                  "2D corollaries: node value at nodes; bounded by the corner values that carry weight; every bilinear "
                  "function reproduced exactly", "fill value outside the hull or for incomparable (NaN) coordinates, "
                  "for every scalar type (2D, 3D)"]
-    ck.partial = ["3D corollaries (node value, bounds, trilinear exactness) follow from C14_interp3d_weights by the same "
-                  "algebra as in 2D but are not spelled out as separate theorems"]
+    ck.proved.append("3D corollaries: node value at nodes, bounds by the corner values that carry weight, every trilinear "
+                     "function reproduced exactly (C14_interp3d_at_node, _between, _trilinear_exact)")
+    ck.partial = []
     ck.not_proved = ["agreement with SciPy and continuity across faces as separate statements (both follow from the "
                      "weights form; checked by the oracle against RegularGridInterpolator)",
                      "list = map single at the numba level (see C08)"]
